@@ -6,10 +6,10 @@ From Verif Require Import S2.Model C01.Spec S2.Basics S2.Invariant S2.Faults.
 Open Scope Z_scope.
 
 (* ---------- hypotheses on a history ---------- *)
-Definition msg_headers (o : op) : list header := match o with OHeaders _ _ hs | OHeadersF _ _ hs _ => hs | _ => [] end.
+Definition msg_headers (o : op) : list header := match o with OHeaders _ _ hs | OHeadersF _ _ hs _ | OHeadersR _ _ hs _ => hs | _ => [] end.
 Definition hist_headers (ops : list op) : list header := flat_map msg_headers ops.
 Definition hist_nows (ops : list op) : list Z :=
-  flat_map (fun o => match o with OHeaders _ now _ | OHeadersF _ now _ _ => [now] | _ => [] end) ops.
+  flat_map (fun o => match o with OHeaders _ now _ | OHeadersF _ now _ _ | OHeadersR _ now _ _ => [now] | _ => [] end) ops.
 
 (* the headers the client ever sees: the genesis block and whatever peers send *)
 Definition U_of (P : params) (ops : list op) (h : header) : Prop := h = genesis P \/ h ∈ hist_headers ops.
@@ -29,7 +29,7 @@ Definition op_ok (P : params) (o : op) : Prop :=
   match o with
   | OHeaders _ _ hs => zlen hs < memCap P
   | ORollback _ => False
-  | OHeadersF _ _ _ _ => False
+  | OHeadersF _ _ _ _ | OHeadersR _ _ _ _ => False
   | _ => True
   end.
 Definition wf_hist (P : params) (ops : list op) : Prop :=
@@ -37,10 +37,12 @@ Definition wf_hist (P : params) (ops : list op) : Prop :=
 
 (* ... and histories in which writes to the block header store may fail
    inside handleHeadersMsg (OHeadersF p now hs k: the k-th WriteHeaders call
-   made for the message fails, any k) *)
+   made for the message fails, any k), or the k-th RollbackLastBlock of a
+   reorganisation's rollback (OHeadersR p now hs k: the handler panics, the
+   process restarts, the stores recover) *)
 Definition op_ok_f (P : params) (o : op) : Prop :=
   match o with
-  | OHeadersF _ _ hs _ => zlen hs < memCap P
+  | OHeadersF _ _ hs _ | OHeadersR _ _ hs _ => zlen hs < memCap P
   | _ => op_ok P o
   end.
 Definition wf_hist_f (P : params) (ops : list op) : Prop :=
@@ -61,7 +63,7 @@ Proof. unfold hist_nows. by rewrite flat_map_app. Qed.
 Lemma op_ok_wf P ops o : o ∈ ops -> op_ok P o -> wf_op P (U_of P ops) (T_of ops) o.
 Proof.
   intros Hin Hok. apply elem_of_list_split in Hin as (l1 & l2 & ->).
-  destruct o as [p now hs| | | | | | |]; cbn in *; try done.
+  destruct o as [p now hs| | | | | | | |]; cbn in *; try done.
   split; [|split; [|done]].
   - unfold T_of. rewrite hist_nows_app. apply elem_of_app. right. cbn. left.
   - apply Forall_forall. intros h Hh. right. rewrite hist_headers_app. apply elem_of_app. right.
@@ -70,12 +72,12 @@ Qed.
 
 Lemma op_ok_wf_f P ops o : o ∈ ops -> op_ok_f P o -> wf_op_f P (U_of P ops) (T_of ops) o.
 Proof.
-  intros Hin Hok. destruct o as [| | | | | | |p now hs k]; try (by apply op_ok_wf).
-  apply elem_of_list_split in Hin as (l1 & l2 & ->). cbn in *.
-  split; [|split; [|done]].
-  - unfold T_of. rewrite hist_nows_app. apply elem_of_app. right. cbn. left.
-  - apply Forall_forall. intros h Hh. right. rewrite hist_headers_app. apply elem_of_app. right.
-    cbn. apply elem_of_app. by left.
+  intros Hin Hok. destruct o as [| | | | | | |p now hs k|p now hs k]; try (by apply op_ok_wf);
+  (apply elem_of_list_split in Hin as (l1 & l2 & ->); cbn in *;
+   split; [|split; [|done]];
+   [unfold T_of; rewrite hist_nows_app; apply elem_of_app; right; cbn; left
+   |apply Forall_forall; intros h Hh; right; rewrite hist_headers_app; apply elem_of_app; right;
+    cbn; apply elem_of_app; by left]).
 Qed.
 
 Lemma wf_hist_ops P ops : Forall (op_ok P) ops -> Forall (wf_op P (U_of P ops) (T_of ops)) ops.
@@ -274,6 +276,21 @@ Proof.
   destruct HI. repeat split; done.
 Qed.
 
+Lemma chain_valid_rollback_faults P gfh pre post :
+  wf_params P -> no_collision P (pre ++ post) -> wf_hist_f P (pre ++ post) ->
+  let s := run P (init_state P gfh) pre in
+  trap s = false /\
+  (exists times, length times = length (chain s) /\
+    Forall (fun t => t ∈ hist_nows pre) (tail times) /\
+    valid_chain P (zip (chain s) times) = true) /\
+  WM (hl s) (chain s) /\ nextCp s = find_next_cp P (tip_height s) /\
+  0 < zlen (fchain s) <= zlen (chain s) /\ ftipVar s = zlen (fchain s) - 1.
+Proof.
+  intros HP HU HW s. destruct (chain_valid_every_instant_f P gfh pre post HP HU HW) as [H1 H2].
+  split; [exact H1|]. split; [exact H2|].
+  apply (mirror_f P gfh pre HP (no_collision_prefix _ _ _ HU) (wf_hist_f_prefix _ _ _ HW)).
+Qed.
+
 Lemma write_faults_conservative P ops now p hs s :
   (wf_hist P ops -> wf_hist_f P ops) /\
   step P s (OHeadersF p now hs 0) = step P s (OHeaders p now hs).
@@ -327,3 +344,15 @@ Definition exf_ops : list op :=
     OHeadersF 1 ex_now [ex_f4] 1;
     OHeaders 1 ex_now [ex_g4];
     OHeaders 1 ex_now [ex_h1; ex_f2; ex_f3; ex_f4] ].
+
+(* a failing rollback: the client has 100,101,102; the heavier branch
+   202,203 arrives while the header file cannot be truncated: 102 is removed
+   from both stores, the handler panics, the process restarts (no peers, the
+   window is the stored tip, the removal of 102 was not announced); the peer
+   connects again and the branch is adopted as an extension *)
+Definition exr_ops : list op :=
+  [ ONewPeer 1 0 10 true;
+    OHeaders 1 ex_now [ex_h1; ex_h2];
+    OHeadersR 1 ex_now [ex_f2; ex_f3] 1;
+    ONewPeer 1 0 10 true;
+    OHeadersR 1 ex_now [ex_f2; ex_f3] 1 ].
